@@ -8,6 +8,7 @@ package simnet
 
 import (
 	"encoding/json"
+	"strings"
 	"fmt"
 	"sort"
 	"time"
@@ -135,6 +136,11 @@ type Knobs struct {
 	// ManyRegs: that many WRKChains and BEACONs (ids 1..n, no records, an owner nobody holds the key
 	// of) already in the genesis document
 	ManyRegs int `json:"many_regs,omitempty"`
+	// GenesisRegUpper: registration 1 of each kind is owned by actor 3, whose address the document
+	// writes in the upper-case bech32 spelling (the models follow these two registrations)
+	GenesisRegUpper bool `json:"genesis_reg_upper,omitempty"`
+	// RefMinGas: minimum-gas-prices of the reference node (the one whose CheckTx is judged)
+	RefMinGas string `json:"ref_min_gas,omitempty"`
 }
 
 type GenOrder struct {
@@ -335,9 +341,19 @@ func BuildGenesis(k *Knobs, actors []*Actor) (json.RawMessage, []abci.ValidatorU
 	wg := wrkchaintypes.DefaultGenesisState()
 	wg.Params = wrkchaintypes.NewParams(k.Wrk.FeeReg, k.Wrk.FeeRec, k.Wrk.FeePur, k.Wrk.Denom, k.Wrk.DefLimit, k.Wrk.MaxLimit)
 	wg.StartingWrkchainId = k.StartWrk
-	for i := 1; i <= k.ManyRegs; i++ {
+	genOwner := func(i int) string {
+		if i == 1 && k.GenesisRegUpper {
+			return strings.ToUpper(actors[3].Bech())
+		}
+		return BigRegOwner().String()
+	}
+	for j := 1; j <= k.ManyRegs; j++ {
+		i := j
+		if k.ManyRegs%2 == 0 {
+			i = k.ManyRegs + 1 - j // a hand-assembled document need not list them in ascending order
+		}
 		wg.RegisteredWrkchains = append(wg.RegisteredWrkchains, wrkchaintypes.WrkChainExport{
-			Wrkchain:     wrkchaintypes.WrkChain{WrkchainId: uint64(i), Moniker: fmt.Sprintf("gen-%d", i), Name: "from genesis", Genesis: fmt.Sprintf("G%X", i*31), Type: "geth", RegTime: uint64(GenesisTS) - 100, Owner: BigRegOwner().String()},
+			Wrkchain:     wrkchaintypes.WrkChain{WrkchainId: uint64(i), Moniker: fmt.Sprintf("gen-%d", i), Name: "from genesis", Genesis: fmt.Sprintf("G%X", i*31), Type: "geth", RegTime: uint64(GenesisTS) - 100, Owner: genOwner(i)},
 			InStateLimit: k.Wrk.DefLimit})
 	}
 	if k.BigReg != nil && k.BigReg.Kind == "wrk" && k.StartWrk >= 2 {
@@ -355,9 +371,13 @@ func BuildGenesis(k *Knobs, actors []*Actor) (json.RawMessage, []abci.ValidatorU
 	bg := beacontypes.DefaultGenesisState()
 	bg.Params = beacontypes.NewParams(k.Beacon.FeeReg, k.Beacon.FeeRec, k.Beacon.FeePur, k.Beacon.Denom, k.Beacon.DefLimit, k.Beacon.MaxLimit)
 	bg.StartingBeaconId = k.StartBeacon
-	for i := 1; i <= k.ManyRegs; i++ {
+	for j := 1; j <= k.ManyRegs; j++ {
+		i := j
+		if k.ManyRegs%2 == 0 {
+			i = k.ManyRegs + 1 - j
+		}
 		bg.RegisteredBeacons = append(bg.RegisteredBeacons, beacontypes.BeaconExport{
-			Beacon:       beacontypes.Beacon{BeaconId: uint64(i), Moniker: fmt.Sprintf("gen-%d", i), Name: "from genesis", RegTime: uint64(GenesisTS) - 100, Owner: BigRegOwner().String()},
+			Beacon:       beacontypes.Beacon{BeaconId: uint64(i), Moniker: fmt.Sprintf("gen-%d", i), Name: "from genesis", RegTime: uint64(GenesisTS) - 100, Owner: genOwner(i)},
 			InStateLimit: k.Beacon.DefLimit})
 	}
 	if k.BigReg != nil && k.BigReg.Kind == "bcn" && k.StartBeacon >= 2 {
